@@ -211,23 +211,38 @@ func VHarnessWalletMint() {
 	env.checkNoLeak("mint")
 }
 
+// gives the wallet deterministic proofs of the given amounts the way MintTokens does (real createBlindedMessages /
+// constructProofs, signed by the fake mint, counter advanced) but with a split chosen by the harness
+func (e *vhWalletEnv) mintDeterministic(amounts []uint64) {
+	ks := e.w.mints[e.mint.URL].activeKeyset
+	counter := e.db.GetKeysetCounter(ks.Id)
+	bms, secrets, rs, err := e.w.createBlindedMessages(amounts, ks.Id, &counter)
+	v.Assume(err == nil)
+	sigs, ok := e.mint.sign(bms)
+	v.Assume(ok)
+	proofs, err := constructProofs(sigs, bms, secrets, rs, &ks)
+	v.Assume(err == nil)
+	e.db.SaveProofs(proofs)
+	e.db.IncrementKeysetCounter(ks.Id, uint32(len(bms)))
+}
+
 // Mint, then send an amount that needs a swap: the swap inputs are proofs the wallet stored with their DLEQ data (C08)
 func VHarnessWalletMintThenSend() {
-	env := vhNewWallet(1000, 0, 0) // with a fee of 1 per input the offline selection never adds up: the send goes through a swap
+	ppk := uint(v.PickU64(v.U64("ppk.active"), 0, 100, 1000))
+	env := vhNewWallet(ppk, 0, 0)
 	defer env.close()
-	env.db.SaveMintQuote(storage.MintQuote{QuoteId: "q1", Mint: env.mint.URL, Method: "bolt11", State: nut04.Unpaid, Unit: "sat", PaymentRequest: "lnbc-q1", Amount: 8})
-	env.mint.MintQ["q1"] = &vhMintQuote{Amount: 8, State: nut04.Paid}
-	_, err := env.w.MintTokens("q1")
-	v.Assume(err == nil)
+	env.mintDeterministic([]uint64{8}) // one proof of 8: every smaller send needs a swap
 	c := env.db.GetKeysetCounter(env.mint.Active)
 	first := len(env.mint.Reqs)
 	l := env.snapshot()
 	amount := v.U64("send.amount")
-	v.Assume(amount >= 1 && amount <= 2)
-	sent, serr := env.w.Send(amount, env.mint.URL, true)
+	v.Assume(amount >= 1 && amount <= 5)
+	includeFees := v.Int("includeFees", 0, 1) == 1
+	sent, serr := env.w.Send(amount, env.mint.URL, includeFees)
 	v.Assume(serr == nil)
 	v.Reach("sent")
 	n := env.checkCounters(c, first, "/v1/swap", "send")
+	v.Assert(n > 0, "the send went through a swap")
 	v.Assert(env.db.GetKeysetCounter(env.mint.Active) == c+uint32(n), "C19 send: the stored counter is past every counter submitted for signing")
 	env.checkConservation(l, "send")
 	env.checkNoLeak("send")
@@ -460,4 +475,38 @@ func VHarnessWalletReceive() {
 	}
 	env.checkConservation(l, "receive")
 	env.checkNoLeak("receive")
+}
+
+// C19 crash points: holding one deterministic proof of 8, a send that needs a swap is killed before any one of its storage or HTTP calls (position
+// symbolic; or runs to its end); restoring from the mnemonic into an empty directory recovers exactly the value of this
+// seed's outputs that the mint still holds unspent.
+func VHarnessWalletCrashRestore() {
+	vhDerivedIds = true
+	vhSeed = bip39.NewSeed(vhMnemonic, "")
+	env := vhNewWallet(100, 0, 0)
+	defer env.close()
+	env.mintDeterministic([]uint64{8}) // one proof of 8: the send needs a swap
+	amount := v.U64("send.amount")
+	v.Assume(amount >= 1 && amount <= 2)
+	hit := v.CrashRun(func() { env.w.Send(amount, env.mint.URL, true) })
+	if hit {
+		v.Reach("struck")
+	} else {
+		v.Reach("not-struck")
+	}
+	var path string
+	if v.Native() {
+		path = v.TempDir()
+	} else {
+		path = "/model/restore"
+		vhRestoreTarget = &vhDB{}
+	}
+	got, rerr := Restore(path, vhMnemonic, []string{env.mint.URL})
+	v.Assert(rerr == nil, "C19 restore succeeds against an honest mint")
+	if rerr != nil {
+		return
+	}
+	unspent := v.ZSub(env.mintIssuedValue(), env.mintSpentValue())
+	v.Assert(v.ZEq(v.ZU(got), unspent), "C19 restore after a wallet crash at any point of a send recovers exactly the value of this seed's outputs that is unspent at the mint")
+	v.Reach("restored-after-crash")
 }
